@@ -81,6 +81,10 @@ type otree struct {
 	root      *onode
 	flags     oflags
 	hardFinal map[*onode]*onode // bound hard link -> the regular file it names
+	// placing: a member is being placed through the links follow resolves. The
+	// view looks a link target up by its spelling; when the node it means was
+	// registered under another spelling the view makes a second one (a twin).
+	placing bool
 }
 
 func newTree() *otree {
@@ -131,6 +135,9 @@ func (t *otree) follow(n *onode, hops *int) (*onode, string) {
 		r, why := t.walkFrom(start, strings.Split(n.target, "/"), hops)
 		if r == nil {
 			return nil, why
+		}
+		if t.placing && r.lit != strings.Join(n.lexTarget, "/") {
+			t.flags.aliasDup = true
 		}
 		n = r
 	}
@@ -211,7 +218,9 @@ func (t *otree) parentDir(elems []string) (*onode, string) {
 		}
 		if n.kind == 's' {
 			t.flags.throughLink = true
+			t.placing = true
 			r, why := t.follow(n, &hops)
+			t.placing = false
 			if r == nil {
 				return nil, why + "-link-in-parent"
 			}
@@ -508,6 +517,40 @@ func (t *otree) writeThrough(n *onode, m member) {
 	default:
 		t.nonWF("file-over-symlink-to-" + string(cur.kind))
 	}
+}
+
+// chainThroughAlias: n is a hard link whose chain passes through another hard
+// link that the view treats as dangling and removes, because that link names
+// its target by a spelling nobody registered (finding hardlink-alias-target).
+func (t *otree) chainThroughAlias(n *onode) bool {
+	seen := map[*onode]bool{}
+	for cur := n; cur != nil && cur.kind == 'h' && !seen[cur]; {
+		seen[cur] = true
+		next, _ := t.resolve(lexClean(cur.target), false)
+		if next == nil {
+			return false
+		}
+		if cur != n && next.lit != strings.Join(lexClean(cur.target), "/") {
+			return true
+		}
+		cur = next
+	}
+	return false
+}
+
+// realNode walks the tree by names only (no link is followed).
+func (t *otree) realNode(elems []string) *onode {
+	cur := t.root
+	for _, c := range elems {
+		if cur.kind != 'd' {
+			return nil
+		}
+		cur = cur.kids[c]
+		if cur == nil {
+			return nil
+		}
+	}
+	return cur
 }
 
 // oversized: reading n (a file or a bound hard link) means opening a member
